@@ -229,7 +229,7 @@ fn client_methods(frames: &[WFrame]) -> Vec<String> {
     frames.iter().map(|f| f.method().map(wire::method_name).unwrap_or_else(|| f.short())).collect()
 }
 
-pub fn run_script(o: &Opts, s: &Script, props: &FieldTable, seg: Segmenter, res: &mut CaseResult) {
+pub fn run_script(o: &Opts, s: &Script, props: &FieldTable, seg: Segmenter, wfrag: (usize, usize), res: &mut CaseResult) {
     let (mock, h) = new_mock(Reflex {
         // the reflex must stay silent: the scenario plays the server
         on_header_do: Some(vec![]),
@@ -239,7 +239,16 @@ pub fn run_script(o: &Opts, s: &Script, props: &FieldTable, seg: Segmenter, res:
         ignore_conn_close: true,
         ..Reflex::default()
     });
-    h.with(|st| st.segmenter = seg);
+    h.with(|st| {
+        st.segmenter = seg;
+        // the client's own handshake frames are written through a transport that takes
+        // a few bytes at a time and would-blocks now and then
+        st.write_max = wfrag.0;
+        for _ in 0..wfrag.1 {
+            st.wscript.push_back(crate::mock::WStep::WouldBlock);
+            st.wscript.push_back(crate::mock::WStep::Accept(1 + wfrag.1));
+        }
+    });
     let t0 = Instant::now();
     let any = build_opts(o);
     let task = run::spawn("open", move || match any {
@@ -499,7 +508,8 @@ pub fn run(rc: &mut RunCtx) {
         if i % 50 == 0 {
             res.sample = Some(json!({"server": s.label, "expect": s.expect, "auth": o.auth, "locale": o.locale, "timeout_ms": o.timeout_ms}));
         }
-        run_script(&o, &s, &props, seg, &mut res);
+        let wfrag = (*r.pick(&[usize::MAX, usize::MAX, 1, 3, 8, 50]), r.usize(0, 4));
+        run_script(&o, &s, &props, seg, wfrag, &mut res);
         rc.end(res);
     }
     // stream ends at a byte offset of the complete server stream
